@@ -1,6 +1,188 @@
-(* C04 - property theorems (under construction) *)
-From SV Require Import Lib.Base Gen.C04Tables C04.Model.
+(* C04 - Character data survives the wire unchanged in both directions.
+   Property theorems only: each is closed by `exact` of a lemma proved in
+   EncProofs / ReplyProofs / TreeProofs / Bounded and followed by Print Assumptions.
 
-Theorem stub_true : True.
-Proof. exact I. Qed.
-Print Assumptions stub_true.
+   Reading guide.  `request_text s` / `request_attr scope pi s` are what suds
+   writes between the tags / the quotes for the value s (Model.v mirrors
+   Text.escape, Encoder.encode over the regenerated tables, the character
+   references added by Element.__escaped_text and Attribute.__unicode__, and
+   PrefixNormalizer.refitValue).  `xml_chardata_decode` / `xml_attvalue_decode`
+   are the XML 1.0 rules an independent parser applies (None = not well-formed). *)
+From SV Require Import Lib.Base Gen.C04Tables C04.Model C04.EncProofs C04.ReplyProofs C04.TreeProofs C04.Bounded.
+Local Open Scope N_scope.
+
+(* ------------------------------------------------------------------ *)
+(* request direction                                                   *)
+(* ------------------------------------------------------------------ *)
+
+(* The five sequential re.sub passes of Encoder.encode are one left-to-right
+   pass: a character's image depends only on it and (for `&`) on what follows. *)
+Theorem encode_single_pass : forall s, encode s = enc1 s.
+Proof. exact encode_single_pass_l. Qed.
+Print Assumptions encode_single_pass.
+
+(* The document is well-formed whatever the string contains: UNGUARDED. *)
+Theorem encode_wellformed : forall s,
+  chars_legal s = true -> exists v, xml_chardata_decode (request_text s) = Some v.
+Proof. exact encode_wellformed_l. Qed.
+Print Assumptions encode_wellformed.
+
+Theorem attr_wellformed : forall scope pi s raw,
+  request_attr scope pi s = Some raw ->
+  (forall v, refit_value scope pi s = Some v -> chars_legal v = true) ->
+  exists v, xml_attvalue_decode QUOT raw = Some v.
+Proof. exact attr_wellformed_l. Qed.
+Print Assumptions attr_wellformed.
+
+(* FULL STATEMENT (false of the faithful model, kept visible):
+     forall s, chars_legal s = true -> xml_chardata_decode (request_text s) = Some s.
+   What holds for every s: the receiver gets s with the predefined entity
+   references s already contained decoded once (`collapse`). *)
+Theorem text_roundtrip_exact : forall s,
+  chars_legal s = true -> xml_chardata_decode (request_text s) = Some (collapse s).
+Proof. exact text_roundtrip_exact_l. Qed.
+Print Assumptions text_roundtrip_exact.
+
+Theorem text_roundtrip_partial : forall s,
+  chars_legal s = true -> has_entity_ref s = false ->
+  xml_chardata_decode (request_text s) = Some s.
+Proof. exact text_roundtrip_partial_l. Qed.
+Print Assumptions text_roundtrip_partial.
+
+(* witness "&lt;" : sent verbatim, read back as "<"
+   (finding C04:text-contains-entity-reference) *)
+Theorem text_roundtrip_refuted :
+  exists s, chars_legal s = true /\ xml_chardata_decode (request_text s) <> Some s.
+Proof. exact text_roundtrip_refuted_l. Qed.
+Print Assumptions text_roundtrip_refuted.
+
+(* attribute values: additionally the value must not be a prefix:rest that the
+   prefix normaliser rewrites.  TAB, LF, CR need no guard any more. *)
+Theorem attr_roundtrip_partial : forall scope pi s,
+  chars_legal s = true -> has_entity_ref s = false -> qname_rewritten scope pi s = false ->
+  exists raw, request_attr scope pi s = Some raw /\ xml_attvalue_decode QUOT raw = Some s.
+Proof. exact attr_roundtrip_partial_l. Qed.
+Print Assumptions attr_roundtrip_partial.
+
+Theorem attr_roundtrip_refuted_entity :
+  exists s, chars_legal s = true /\ qname_rewritten [] [] s = false /\
+            request_attr [] [] s <> None /\
+            forall raw, request_attr [] [] s = Some raw -> xml_attvalue_decode QUOT raw <> Some s.
+Proof. exact attr_roundtrip_refuted_entity_l. Qed.
+Print Assumptions attr_roundtrip_refuted_entity.
+
+(* witness "p:x" with p bound: read back as "ns0:x"
+   (finding C04:attr-value-looks-like-qname) *)
+Theorem attr_roundtrip_refuted_qname :
+  exists scope pi s, chars_legal s = true /\ has_entity_ref s = false /\
+    exists raw v, request_attr scope pi s = Some raw /\ xml_attvalue_decode QUOT raw = Some v /\ v <> s.
+Proof. exact attr_roundtrip_refuted_qname_l. Qed.
+Print Assumptions attr_roundtrip_refuted_qname.
+
+(* the escaped flag: escaping an escaped Text changes nothing *)
+Theorem escape_once : forall t,
+  t_chars (text_escape (text_escape t)) = t_chars (text_escape t).
+Proof. exact escape_idempotent_l. Qed.
+Print Assumptions escape_once.
+
+Example request_nonvacuous :
+  let s := [97; 60; 98; 38; 13; 93; 93; 62] in          (* a<b& CR ]]> *)
+  chars_legal s = true /\ has_entity_ref s = false /\ qname_rewritten [] [] s = false /\
+  request_text s = [97; 38;108;116;59; 98; 38;97;109;112;59; 38;35;49;51;59; 93; 93; 38;103;116;59].
+Proof. repeat split; reflexivity. Qed.
+
+(* ------------------------------------------------------------------ *)
+(* bounded exhaustive classification (the guards are the weakest ones) *)
+(* ------------------------------------------------------------------ *)
+
+(* every string of length <= 5 over  & ; < > quot apos l t g a m p CR : it survives
+   as element text EXACTLY when it contains no predefined entity reference *)
+Theorem text_roundtrip_bounded : forall s,
+  (length s <= 5)%nat -> (forall c, In c s -> In c alphabet_text) ->
+  text_survives s = negb (has_entity_ref s).
+Proof. exact text_roundtrip_bounded_l. Qed.
+Print Assumptions text_roundtrip_bounded.
+
+(* every string of length <= 5 over  p : & ; l t < TAB LF CR quot  (p a bound prefix) *)
+Theorem attr_roundtrip_bounded : forall s,
+  (length s <= 5)%nat -> (forall c, In c s -> In c alphabet_attr) ->
+  attr_survives s = negb (has_entity_ref s) && negb (qname_rewritten sweep_scope sweep_pi s).
+Proof. exact attr_roundtrip_bounded_l. Qed.
+Print Assumptions attr_roundtrip_bounded.
+
+(* ------------------------------------------------------------------ *)
+(* reply direction                                                     *)
+(* ------------------------------------------------------------------ *)
+
+(* whatever mix of literal text, entity references, decimal and hexadecimal
+   character references and CDATA sections the writer uses (any number of
+   pieces, any order, leading zeros, either hex case), the content denotes the
+   string the writer meant *)
+Theorem reply_any_encoding : forall ps,
+  pieces_ok 0 ps = true -> xml_chardata_decode (render_pieces ps) = Some (pieces_value ps).
+Proof. exact reply_any_encoding_l. Qed.
+Print Assumptions reply_any_encoding.
+
+Theorem reply_attr_any_encoding : forall q ps,
+  apieces_ok q ps = true -> xml_attvalue_decode q (render_pieces ps) = Some (pieces_value ps).
+Proof. exact reply_attr_any_encoding_l. Qed.
+Print Assumptions reply_attr_any_encoding.
+
+(* the Handler hands over exactly the concatenation of the character events of
+   a leaf element, however the parser cut them (absent text = empty string) *)
+Theorem reply_text_exact : forall chunks,
+  none_is_empty (suds_leaf_value chunks) = concat chunks.
+Proof. exact reply_text_exact_l. Qed.
+Print Assumptions reply_text_exact.
+
+(* trimming happens only for elements with children *)
+Theorem trim_only_nonleaf : forall buf n,
+  close_text buf 0 = match buf with [] => None | _ => Some (mkText (concat (rev buf)) false) end
+  /\ close_text buf (S n) = option_map text_trim (close_text buf 0).
+Proof. exact trim_only_nonleaf_l. Qed.
+Print Assumptions trim_only_nonleaf.
+
+Example reply_nonvacuous :
+  let ps := [PLit [97; 93; 93]; PEnt [108; 116]; PDec [48; 49; 51]; PHex [49; 70; 54; 48; 48];
+             PCData [60; 38; 93; 93]; PLit [62]] in
+  pieces_ok 0 ps = true /\
+  pieces_value ps = [97; 93; 93; 60; 13; 128512; 60; 38; 93; 93; 62] /\
+  apieces_ok QUOT [PLit [97; 39]; PEnt [113; 117; 111; 116]; PHex [65]] = true.
+Proof. repeat split; reflexivity. Qed.
+
+(* ------------------------------------------------------------------ *)
+(* standalone trees, plain and pretty serialiser                       *)
+(* ------------------------------------------------------------------ *)
+
+(* An XML processor reading Element.plain() / Element.str() of a tree whose
+   texts and attribute values contain no entity reference reports events from
+   which suds' Handler rebuilds the tree: leaf text exactly, text of elements
+   with children trimmed, absent for empty.  (`events_plain/pretty` apply the
+   XML decoding rules to the serialised text and attribute values; cutting
+   the character stream into tags is expat's part, see the harness.) *)
+Theorem tree_reparse_plain : forall t,
+  tree_ok t = true -> handler (events_plain t) = Some (reread_gen false t).
+Proof. exact tree_reparse_plain_l. Qed.
+Print Assumptions tree_reparse_plain.
+
+(* at any indentation; the whitespace the pretty serialiser adds lands in
+   elements that have children and is trimmed away *)
+Theorem tree_reparse_pretty : forall t i,
+  tree_ok t = true -> handler (events_pretty i t) = Some (reread_gen true t).
+Proof. exact tree_reparse_pretty_l. Qed.
+Print Assumptions tree_reparse_pretty.
+
+(* both serialisers are read back alike (an empty Text counts as no text) *)
+Theorem pretty_plain_same : forall t,
+  drop_empty (reread_gen true t) = drop_empty (reread_gen false t).
+Proof. exact pretty_plain_same_l. Qed.
+Print Assumptions pretty_plain_same.
+
+Example tree_nonvacuous :
+  let t := El [97] [([120], mkText [34; 9] false)] (Some (mkText [32; 60; 32] false))
+              [El [98] [] (Some (mkText [32; 121; 32] false)) []] in
+  tree_ok t = true /\
+  reread_gen true t = El [97] [([120], mkText [34; 9] false)] (Some (mkText [60] false))
+                         [El [98] [] (Some (mkText [32; 121; 32] false)) []] /\
+  handler (events_pretty 0 t) = Some (reread_gen true t).
+Proof. repeat split; reflexivity. Qed.
